@@ -1,6 +1,6 @@
 (* C01 — Exact GP posterior equals the closed-form Gaussian conditional.
    Statement file: theorems, [exact lemma], Print Assumptions.  Nothing else. *)
-From Coq Require Import Arith.
+From Coq Require Import Arith List QArith Qcanon.
 From GPV Require Import Base.LinAlg Base.Exec Models.C01_posterior Proofs.C01_posterior.
 
 (* the covariance the code computes is K** - K*x (Kxx+S)^-1 Kx*, for every n, t *)
@@ -71,3 +71,24 @@ Theorem c01_eager_lazy_blocks_agree :
     meq p q (sub r c (fun i j => k i j)) (fun i j => k (r + i)%nat (c + j)%nat).
 Proof. intros K. exact (@eager_lazy_blocks_agree K). Qed.
 Print Assumptions c01_eager_lazy_blocks_agree.
+
+(* kernels with active_dims, evaluated lazily: evaluate_kernel puts the kernel object's active_dims back, hence
+   for ANY interleaving of building lazy tensors and evaluating them on one shared kernel object (any number of
+   predictions of one model) every evaluation is the eager evaluation on the active columns *)
+Theorem c01_lazy_active_dims_agree :
+  forall (K : Fld) (kf : M -> M -> M) a ops, lazy_run kf true a nil ops = eager_run kf a nil ops.
+Proof. intros K. exact (@lazy_eq_eager K). Qed.
+Print Assumptions c01_lazy_active_dims_agree.
+
+(* ... and the restoration is needed: without it the first use is still right, the second is not *)
+Theorem c01_lazy_active_dims_not_restored_refuted :
+  exists (kf : @M QcF -> @M QcF -> @M QcF) a ops,
+    nth 1 (lazy_run kf false a nil ops) mzero 0%nat 0%nat <> nth 1 (eager_run kf a nil ops) mzero 0%nat 0%nat /\
+    nth 0 (lazy_run kf false a nil ops) mzero 0%nat 0%nat = nth 0 (eager_run kf a nil ops) mzero 0%nat 0%nat.
+Proof. exact lazy_not_restoring_refuted. Qed.
+Print Assumptions c01_lazy_active_dims_not_restored_refuted.
+
+Example ex_c01_lazy_ops :
+  length (lazy_run ex_kf true (Some (cons 1%nat nil)) nil ex_ops) = 2%nat /\
+  nth 1 (lazy_run ex_kf true (Some (cons 1%nat nil)) nil ex_ops) mzero 0%nat 0%nat = 1%Qc.
+Proof. exact ex_lazy_ops_nonvacuous. Qed.
